@@ -564,10 +564,16 @@ def optimized_child(col, prop, subs):
         m = re.search(r'evaluations=(\d+) distinct_nontrivial=(\d+)', p.stdout)
         if p.returncode == 1:
             recs = []
-            for f in sorted(glob.glob(os.path.join(
-                    out, 'replays', 'found', prop, '*.json'))):
-                with open(f) as fh:
-                    recs.append(json.load(fh))
+            paths = re.findall(r'^VIOLATION property=\S+ replay=(\S+)$',
+                               p.stdout, re.M)
+            for f in sorted(set(paths)):
+                if not os.path.isabs(f):
+                    f = os.path.join(VERIF_DIR, f)
+                try:
+                    with open(f) as fh:
+                        recs.append(json.load(fh))
+                except (OSError, ValueError):
+                    pass
             if not recs:
                 raise HarnessError('python -O child reported a violation '
                                    'without a replay:\n' + p.stdout[-2000:])
